@@ -13,6 +13,7 @@ mod gen;
 mod model;
 mod monitor;
 mod props;
+mod qplib_model;
 mod rng;
 
 use monitor::Monitor;
